@@ -89,12 +89,17 @@ def agreeOk (ts : List (List Cell)) (out : List Cell) (tol : Rat) : Bool :=
     | some (r0 :: _), .arr _ _ data => data.zipIdx.all fun (x, s) => close tol x (pick r0 s)
     | _, _ => false
 
+/-- the samples of a 1-D array (nothing else qualifies) -/
+def arr1? : Val → Option (List Rat)
+  | .arr _ [_] d => some d
+  | _ => none
+
 /-- one field, mixture: an output array has the inputs' common length and every sample equals the
 sample AT THE SAME INDEX of one of the inputs; a scalar equals every input's scalar -/
 def mixtureFieldOk (vals : List Val) (v : Val) : Bool :=
   match v with
   | .arr false [n] data =>
-    (match vals.mapM (fun x => match x with | .arr _ [_] d => some d | _ => none) with
+    (match vals.mapM arr1? with
      | some rows =>
        rows.all (·.length == data.length) && n == data.length &&
        data.zipIdx.all fun (x, s) => rows.any fun r => r.getD s 0 == x
